@@ -67,9 +67,13 @@ impl CaoLangAllocator {
     /// `alloc` is not thread safe. It is on the caller to ensure that only a single thread uses
     /// the allocator at a time
     pub unsafe fn alloc(&self, l: Layout) -> Result<NonNull<u8>, AllocError> {
+        #[cfg(feature = "verif-hooks")]
+        crate::verif::with(|c| c.before_alloc(self, l));
         let s = l.size() + l.align();
         let allocated = s + self.allocated.fetch_add(s, Ordering::Relaxed);
         if allocated > self.limit.load(Ordering::Relaxed) {
+            #[cfg(feature = "verif-hooks")]
+            crate::verif::with(|c| c.after_alloc(self, l, None));
             return Err(AllocError::OutOfMemory);
         }
         if allocated > self.next_gc.load(Ordering::Relaxed) {
@@ -83,6 +87,8 @@ impl CaoLangAllocator {
             );
         }
         let ptr = alloc(l);
+        #[cfg(feature = "verif-hooks")]
+        crate::verif::with(|c| c.after_alloc(self, l, NonNull::new(ptr)));
         Ok(NonNull::new(ptr).unwrap())
     }
 
@@ -90,6 +96,8 @@ impl CaoLangAllocator {
     ///
     /// Only pointers allocated by this instance are safe to free
     pub unsafe fn dealloc(&self, p: NonNull<u8>, l: Layout) {
+        #[cfg(feature = "verif-hooks")]
+        crate::verif::with(|c| c.on_dealloc(self, p, l));
         let s = l.size() + l.align();
         self.allocated.fetch_sub(s, Ordering::Relaxed);
         dealloc(p.as_ptr(), l);
